@@ -2,7 +2,21 @@
 from . import common, observe
 from .common import ToolError
 
-PRIM_TEXT = {"unit": "()", "str": "&'static str", "DateTime": "OffsetDateTime"}
+PRIM_TEXT = {"unit": "()", "str": "&'static str", "DateTime": "OffsetDateTime", "Ovr": "String"}
+# leaf "Ovr": a String member that carries a type override for every language (MC_C04!TOf)
+OVERRIDE = ('#[typeshare(swift(type = "Int"), typescript(type = "bigint"), kotlin(type = "Int"), go(type = "uint"), '
+            'scala(type = "Short"), python(type = "int"))]')
+
+
+def mentions_ovr(t):
+    if t.get("k") == "prim" and t.get("n") == "Ovr":
+        return True
+    return any(mentions_ovr(x) for x in ([t[c] for c in ("e", "key", "val") if c in t] + list(t.get("args", []))))
+
+
+def tree_key(t):
+    """key of a type tree for twin look-ups (the override leaf is written `String` too)"""
+    return rust_text(t) + ("#ovr" if mentions_ovr(t) else "")
 QUAL = {"String": "std::string::String", "User": "crate::types::User", "Gen": "crate::types::Gen"}
 
 
@@ -59,8 +73,11 @@ RENAMES = {"Ren": "RenDto"}
 def source(tree, default_attr=None, positions=("field", "vfield", "payload", "alias")):
     ty = rust_text(tree)
     g = "<T>" if mentions_param(tree) else ""
-    attr = "".join(f"    {a}\n" for a in (default_attr or []))
-    vattr = "".join(f"        {a}\n" for a in (default_attr or []))
+    fattrs = list(default_attr or []) + ([OVERRIDE] if mentions_ovr(tree) else [])
+    attr = "".join(f"    {a}\n" for a in fattrs)
+    vattr = "".join(f"        {a}\n" for a in fattrs)
+    if mentions_ovr(tree):
+        positions = tuple(p for p in positions if p in ("field", "vfield"))      # only fields can carry an override
     out = SUPPORT
     if "field" in positions:
         out += f"#[typeshare]\npub struct Host{g} {{\n{attr}    pub f: {ty},\n    pub keep: u32,\n}}\n"
@@ -173,7 +190,7 @@ def run_trees(chk, cases, configs=("base",), positions=("field", "vfield", "payl
                 pfx = prefix if lang in ("swift", "kotlin") else ""
                 obs = observations(lang, r["obs"], pfx, positions, cname)
                 al = aliases_of(r["obs"])
-                for pos in positions:
+                for pos in (positions if not mentions_ovr(tree) else [x for x in positions if x in ("field", "vfield")]):
                     if obs.get(pos) == "ambiguous":
                         continue
                     if pos not in obs:
